@@ -98,13 +98,17 @@ def gen_case(rng, i):
             if nm not in bound:
                 if rng.random() < .5:
                     positional = positional and True
+                if rng.random() < .3:
+                    # `None` as a keyword value: a placeholder like a positional None (D55)
+                    kwargs.append([nm, None])
+                    positional = False
                 continue
             positional = positional and rng.random() < .5
             kwargs.append([nm, bound[nm]])
     err = None
     if mode == "error":
         if rng.random() < .5 or not args:
-            kwargs.append([gen.choice(rng, [7, 8, 11]), gen.gen_const_struct(rng, shape=(), kind="int") | {"as": "scalar"}])
+            kwargs.append([gen.choice(rng, [7, 8, 11]), None if rng.random() < .25 else gen.gen_const_struct(rng, shape=(), kind="int") | {"as": "scalar"}])
             err = "unknown"
         else:
             k = next(i for i, x in enumerate(args) if x is not None)
@@ -209,9 +213,9 @@ def check(ctx, c, model, monitor=None):
         ctx.nontrivial_add((c["id"],))
     # the list of argument materialisations: first the generator's own choice, then one carrier swap at a time
     base_args = [None if x is None else gen.materialize(x, x.get("as", "poly")) for x in c["args"]]
-    base_kwargs = [[k, gen.materialize(v, v.get("as", "poly"))] for k, v in c["kwargs"]]
+    base_kwargs = [[k, None if v is None else gen.materialize(v, v.get("as", "poly"))] for k, v in c["kwargs"]]
     variants = [("base", base_args, base_kwargs)]
-    slots = [("arg", i, x) for i, x in enumerate(c["args"]) if x is not None] + [("kw", i, v) for i, (_, v) in enumerate(c["kwargs"])]
+    slots = [("arg", i, x) for i, x in enumerate(c["args"]) if x is not None] + [("kw", i, v) for i, (_, v) in enumerate(c["kwargs"]) if v is not None]
     for where, i, x in slots:
         for cname, obj in carrier_variants(x)[:32] if x.get("as") == "scalar" or (x.get("as") == "ndarray" and x.get("kind") == "int") else []:
             a2, k2 = list(base_args), [list(kv) for kv in base_kwargs]
@@ -236,7 +240,7 @@ def check(ctx, c, model, monitor=None):
                     ctx.fail(c, "numpoly.call(poly, args, kwargs) gives different results on the first and the second call with the same dict", tags + ["kwargs-mutated", "value"])
                     return
             elif monitor:
-                with monitor.watch("C02:call", p, *[x for x in args if x is not None], *[v for _, v in kwargs]):
+                with monitor.watch("C02:call", p, *[x for x in args if x is not None], *[v for _, v in kwargs if v is not None]):
                     res = call_impl(p, args, kwargs)
             else:
                 res = call_impl(p, args, kwargs)
@@ -276,7 +280,7 @@ def check(ctx, c, model, monitor=None):
             return
     # staged evaluation: bind the first bound name alone, then the rest
     if model.get("status") == "ok" and c["mode"] in ("full", "partial") and len(c["kwargs"]) + sum(x is not None for x in c["args"]) >= 2:
-        allk = [[c["a"]["names"][k], gen.materialize(x, x.get("as", "poly"))] for k, x in enumerate(c["args"]) if x is not None] + base_kwargs
+        allk = [[c["a"]["names"][k], gen.materialize(x, x.get("as", "poly"))] for k, x in enumerate(c["args"]) if x is not None] + [kv for kv in base_kwargs if kv[1] is not None]
         try:
             first = call_impl(p, [], allk[:1])
             if isinstance(first, numpoly.ndpoly):
